@@ -21,7 +21,7 @@ TECHNIQUE = "model-based property testing: Hypothesis-generated receive/send his
 RULE = (
     "history = list of ops (genuine frame with seq relative to the sender's last valid number, replay of an earlier frame, forged MAC, wrong key, unknown sender, "
     "secured frame to an unkeyed group, both algorithms) over 1-3 senders and 3 groups; non-trivial = history with a replay after a MAC failure, or with two senders interleaved, "
-    "or outgoing sends interleaved with the receive history (which must not create or move sender-table entries), or an outgoing run crossing the 48-bit limit; distinct by history"
+    "or outgoing sends interleaved with the receive history (which must not create or move sender-table entries), or an outgoing run crossing the 48-bit limit, or an outgoing run in which an already secured APDU (own earlier output / captured frame) is handed to the send path again; distinct by history"
 )
 LEVEL_TEXT = "Sampled histories against an explicit reference model of the per-sender last valid sequence number; every delivery decision of the real receive path is compared with the model, so a single wrong comparison, a counter advanced by a rejected frame or a missing sender check shows up as soon as a history exercises it."
 LEVEL_NOTE = "Frames are built with xknx's own SecureData (its conformance is C19's job); a forged MAC passing by chance has probability 2^-32 per frame."
@@ -205,7 +205,7 @@ def _oracle(ctx, h) -> None:
     ctx.case(repr(h), nontrivial=nt, cls=cls, sample=h if nt and len(h["ops"]) <= 6 else None)
 
 
-def outgoing_case(ctx, start: int, n: int, interleave_rx: bool) -> None:
+def outgoing_case(ctx, start: int, n: int, interleave_rx: bool, resend: int = 0) -> None:
     from xknx.cemi import CEMIFlags, CEMILData
     from xknx.dpt import DPTArray
     from xknx.exceptions import DataSecureError
@@ -216,7 +216,7 @@ def outgoing_case(ctx, start: int, n: int, interleave_rx: bool) -> None:
 
     from vk.dsec import secure_frame, with_loop
 
-    inp = {"outgoing_start": start, "n": n, "interleave_rx": interleave_rx}
+    inp = {"outgoing_start": start, "n": n, "interleave_rx": interleave_rx, "resend": resend}
 
     def body():
         ds = DataSecure(
@@ -225,9 +225,14 @@ def outgoing_case(ctx, start: int, n: int, interleave_rx: bool) -> None:
             last_sequence_number_sending=start,
         )
         seqs: list[int] = []
+        sent: list = []
         failed_at = None
         for i in range(n):
             data = CEMILData(flags=CEMIFlags(), src_addr=IndividualAddress(0x11FA), dst_addr=GroupAddress(0x0801), tpci=TDataGroup(), payload=GroupValueWrite(DPTArray((i & 0xFF,))))
+            if resend and i % resend == resend - 1:
+                # an already secured APDU handed to the send path again (own earlier output, or a captured frame of
+                # another sender): whatever it contains, the frame that leaves carries this instance's next number
+                data.payload = sent[-1] if sent and i % 2 else _parse(secure_frame(KEYS[0x0801], SENDERS[0], 0x0801, 1 + i, _apdu(i))).payload
             if interleave_rx and i % 2:
                 try:
                     ds.received_cemi(_parse(secure_frame(KEYS[0x0801], SENDERS[0], 0x0801, i + 1, _apdu(i))))
@@ -248,6 +253,7 @@ def outgoing_case(ctx, start: int, n: int, interleave_rx: bool) -> None:
                 ctx.fail("C17:outgoing-plain", inp, f"frame {i} to a keyed group left plain")
                 return
             seqs.append(int.from_bytes(out.payload.secured_data.sequence_number_bytes, "big"))
+            sent.append(out.payload)
         exp = [s for s in range(start, start + n) if s <= MAXSEQ]
         if seqs != exp:
             if any(s > MAXSEQ for s in seqs) or (len(seqs) > 1 and any(b <= a for a, b in zip(seqs, seqs[1:]))):
@@ -258,7 +264,7 @@ def outgoing_case(ctx, start: int, n: int, interleave_rx: bool) -> None:
             ctx.fail("C17:outgoing-no-error-on-exhaustion", inp, "no DataSecureError after 2^48-1")
 
     with_loop(body)
-    ctx.case(("out", start, n, interleave_rx), nontrivial=start + n - 1 > MAXSEQ, cls="outgoing-crossing-limit" if start + n - 1 > MAXSEQ else "outgoing", sample=inp if start + n - 1 > MAXSEQ and n < 5 else None)
+    ctx.case(("out", start, n, interleave_rx, resend), nontrivial=resend > 0 or start + n - 1 > MAXSEQ, cls="outgoing-crossing-limit" if start + n - 1 > MAXSEQ else ("outgoing-resend-secured" if resend else "outgoing"), sample=inp if (start + n - 1 > MAXSEQ or resend) and n < 5 else None)
 
 
 def _parse(raw: bytes):
@@ -278,6 +284,10 @@ def _out_shard(ctx, lo: int, hi: int) -> None:
                 outgoing_case(ctx, MAXSEQ - k, k + 1 + extra, irx)
     for start in (1, 2, 1000, 1 << 32, (1 << 47) + 12345, MAXSEQ - 1000):
         outgoing_case(ctx, start + lo, 12, lo % 2 == 0)
+        for resend in (1, 2, 3, 4):
+            outgoing_case(ctx, start + lo, 4 + resend, lo % 4 < 2, resend)
+    for k in range(lo, hi):
+        outgoing_case(ctx, MAXSEQ - k, k + 3, False, 2)
 
 
 def run(ctx) -> None:
@@ -287,6 +297,6 @@ def run(ctx) -> None:
 
 def replay(ctx, case) -> None:
     if "outgoing_start" in case:
-        outgoing_case(ctx, int(case["outgoing_start"]), int(case["n"]), bool(case["interleave_rx"]))
+        outgoing_case(ctx, int(case["outgoing_start"]), int(case["n"]), bool(case["interleave_rx"]), int(case.get("resend", 0)))
     else:
         run_history(ctx, case)
